@@ -90,7 +90,9 @@ func extractArchiver() {
 	s.nats("badStatusList", bad, len(bad) > 0)
 	s.boolean("challengePagesRetried", strings.Contains(as, "isDiscardedChallengePage:=discarded&&reasoncode.IsChallengePage(discardReason)") &&
 		strings.Contains(as, "ifisBadStatusCode||isDiscardedChallengePage{"))
-	s.boolean("onlyPreProcessedFetched", strings.Contains(as, "ifitems[i].GetStatus()!=models.ItemPreProcessed{") && strings.Contains(as, "continue}guard<-struct{}{}"))
+	s.boolean("onlyPreProcessedFetched", strings.Contains(as, "ifitems[i].GetStatus()!=models.ItemPreProcessed{") && strings.Contains(as, "continue}") &&
+		strings.Index(as, "ifitems[i].GetStatus()!=models.ItemPreProcessed{") < strings.Index(as, "guard<-struct{}{}") && strings.Count(as, "guard<-struct{}{}") == 1)
+	s.boolean("noNewCapturesAfterStop", strings.Contains(as, "ifglobalArchiver.ctx.Err()!=nil{") && strings.Contains(as, "break}guard<-struct{}{}"))
 	s.boolean("workAtMaxDepth", strings.Contains(as, "items,err:=seed.GetNodesAtLevel(seed.GetMaxDepth())"))
 
 	// synchronous WARC writing: the feedback channel is created unless async, and awaited before Archived
